@@ -51,3 +51,29 @@ Proof. intros p p' t t'. exact (C17_holds p p' t Decstr t'). Qed.
 Check C16_decstr_parked_ctx : forall p p' t t', TInv t -> execute t Decstr = Ok t' -> holds_C17 (mkVt p t) Decstr (mkVt p' t') = true.
 Print Assumptions C16_decstr_parked_ctx.
 
+From Avt Require Import Model.Vt Oracles.C16Text Proofs.C16Text.
+(** Oracles/C16Text.v, Proofs/C16Text.v: the text of the primary on EVERY return (47 / 1047 / 1049, inside any mode list), for EVERY scrollback limit, and the whole excursion *)
+(** after a resize during the excursion, also when leaving with ?47l / ?1047l: the returned primary's logical lines are the parked ones cut at one place at most and followed only by empty lines (`tail_ok`), intact up to the reflow cursor's line (`text_upto`); with the size unchanged the lines are exactly the parked ones; no limit hypothesis (`execute` never trims) *)
+Theorem C16_return_text : forall p p' t f t', TInv t -> execute t f = Ok t' -> holds_C16_return_text (mkVt p t) f (mkVt p' t') = true.
+Proof. exact C16_return_text_holds. Qed.
+Check C16_return_text : forall p p' t f t', TInv t -> execute t f = Ok t' -> holds_C16_return_text (mkVt p t) f (mkVt p' t') = true.
+Print Assumptions C16_return_text.
+
+(** the ?1049l clause of C16_resized_statement for every scrollback limit *)
+Theorem C16_resized_1049_every_limit : forall p' t t', TInv t -> active t = Alternate -> execute t (Decrst [SaveCursorAltScreenBuffer]) = Ok t' -> resize_preserves (other t) (sc_col (saved_of t Primary)) (sc_row (saved_of t Primary)) (buf t') (cur_col t') (cur_row t') = true /\ holds_C02_state (mkVt p' t') = true.
+Proof. exact C16_resized_1049_any_limit. Qed.
+Check C16_resized_1049_every_limit : forall p' t t', TInv t -> active t = Alternate -> execute t (Decrst [SaveCursorAltScreenBuffer]) = Ok t' -> resize_preserves (other t) (sc_col (saved_of t Primary)) (sc_row (saved_of t Primary)) (buf t') (cur_col t') (cur_row t') = true /\ holds_C02_state (mkVt p' t') = true.
+Print Assumptions C16_resized_1049_every_limit.
+
+(** "throughout": after entering, along ANY run of feeds, flushes and resizes that stays on the alternate screen, the parked primary buffer is Leibniz-equal to the primary before entering and text() is unchanged *)
+Theorem C16_throughout_excursion : forall v0 c0 v1 ops v, Inv v0 -> active (vterm v0) = Primary -> vt_feed v0 c0 = Ok v1 -> active (vterm v1) = Alternate -> alt_run v1 ops v -> Inv v /\ active (vterm v) = Alternate /\ other (vterm v) = buf (vterm v0) /\ vt_text v = vt_text v0.
+Proof. exact C16_throughout. Qed.
+Check C16_throughout_excursion : forall v0 c0 v1 ops v, Inv v0 -> active (vterm v0) = Primary -> vt_feed v0 c0 = Ok v1 -> active (vterm v1) = Alternate -> alt_run v1 ops v -> Inv v /\ active (vterm v) = Alternate /\ other (vterm v) = buf (vterm v0) /\ vt_text v = vt_text v0.
+Print Assumptions C16_throughout_excursion.
+
+(** "before, throughout and after": enter; any such run; leave - with the size at leaving equal to the size at entering the primary's lines (scrollback included) and text() are exactly as before; otherwise re-wrapped, never altered *)
+Theorem C16_whole_excursion : forall v0 c0 v1 ops v2 ms t3, Inv v0 -> active (vterm v0) = Primary -> vt_feed v0 c0 = Ok v1 -> active (vterm v1) = Alternate -> alt_run v1 ops v2 -> execute (vterm v2) (Decrst ms) = Ok t3 -> active t3 = Primary -> (cols (vterm v2) = cols (vterm v0) -> rows (vterm v2) = rows (vterm v0) -> lines (buf t3) = lines (buf (vterm v0)) /\ term_text t3 = vt_text v0) /\ excursion_text_ok (buf (vterm v0)) (buf t3) = true.
+Proof. exact C16_excursion. Qed.
+Check C16_whole_excursion : forall v0 c0 v1 ops v2 ms t3, Inv v0 -> active (vterm v0) = Primary -> vt_feed v0 c0 = Ok v1 -> active (vterm v1) = Alternate -> alt_run v1 ops v2 -> execute (vterm v2) (Decrst ms) = Ok t3 -> active t3 = Primary -> (cols (vterm v2) = cols (vterm v0) -> rows (vterm v2) = rows (vterm v0) -> lines (buf t3) = lines (buf (vterm v0)) /\ term_text t3 = vt_text v0) /\ excursion_text_ok (buf (vterm v0)) (buf t3) = true.
+Print Assumptions C16_whole_excursion.
+
